@@ -224,6 +224,11 @@ def action_obligations(rep: Report):
     tree = ast.parse(open(os.path.join(REPO, "peg_parser/subheader.py"), encoding="utf-8").read())
     fn = next((n for c in ast.walk(tree) if isinstance(c, ast.ClassDef) and c.name == "Parser" for n in c.body if isinstance(n, ast.FunctionDef) and n.name == "handle_fstring"), None)
     rets = [n.value for n in ast.walk(fn) if isinstance(n, ast.Return)] if fn else []
+    # `return <name>` where <name> is assigned exactly once, from the constructor call, counts as returning that call
+    if fn and len(rets) == 1 and isinstance(rets[0], ast.Name):
+        defs = [n.value for n in ast.walk(fn) if isinstance(n, ast.Assign) and any(isinstance(t, ast.Name) and t.id == rets[0].id for t in n.targets)]
+        if len(defs) == 1:
+            rets = defs
     parts = fn.args.args[2].arg if fn and len(fn.args.args) > 2 else None
     kwname = fn.args.kwarg.arg if fn and fn.args.kwarg else None
     good = (len(rets) == 1 and isinstance(rets[0], ast.Call) and ast.unparse(rets[0].func) == "ast.JoinedStr"
